@@ -103,13 +103,14 @@ PublisherConfStillInForce ==
 \* ------------------------------------------------------------------ layer 2 on an observed scenario
 \* users of the real server: entries [ips, perms: <<[action, kind, cls]>>, user, pass]; a permission path
 \* is empty, or the regular expression ^vf<cls> which is found exactly in the names of class cls
-NetHas(n) == CASE n = "127.0.0.1" -> {"127.0.0.1"} [] n = "10.0.0.0/24" -> {"10.0.0.5"}
+\* dave is admitted from the single host 10.0.0.5 (not from 10.0.0.50, whose text extends it)
+NetHas(n) == CASE n = "127.0.0.1" -> {"127.0.0.1"} [] n = "10.0.0.5" -> {"10.0.0.5"}
 P(a, kind, cls) == [action |-> a, kind |-> kind, cls |-> cls]
 U(ips, perms, user, pass) == [ips |-> ips, perms |-> perms, user |-> user, pass |-> pass]
 Users == << U(<<>>, <<P("publish", "empty", ""), P("read", "empty", "")>>, "alice", "pw"),
             U(<<>>, <<P("publish", "re", "a")>>, "puba", "pw"),
             U(<<>>, <<P("read", "empty", "")>>, "reader", "pw"),
-            U(<<"10.0.0.0/24">>, <<P("publish", "empty", ""), P("read", "empty", "")>>, "dave", "pw"),
+            U(<<"10.0.0.5">>, <<P("publish", "empty", ""), P("read", "empty", "")>>, "dave", "pw"),
             U(<<"127.0.0.1">>, <<P("api", "empty", "")>>, "any", "") >>
 \* C01's statement over these atoms
 OracleAdmit(action, cls, user, pass, ip) ==
@@ -150,7 +151,7 @@ UserOf(c) == IF c = "none" THEN "" ELSE IF c = "bad" THEN "alice" ELSE c
 PassOf(c) == IF c = "none" THEN "" ELSE IF c = "bad" THEN "wrong" ELSE "pw"
 Scenarios ==
     {x \in [proto : Protos, action : Actions, cred : CredTok, cls : {"a", "b"},
-            reload : {"none", "other", "change"}, ip : {"127.0.0.1", "10.0.0.5", "10.0.1.5"}] :
+            reload : {"none", "other", "change"}, ip : {"127.0.0.1", "10.0.0.5", "10.0.0.50", "10.0.1.5"}] :
         /\ (x.proto = "hls" => x.action = "read")
         /\ (x.proto # "hls" => x.ip = "127.0.0.1")         \* only HTTP protocols sit behind the trusted proxy
         /\ (x.proto = "hls" => x.ip # "127.0.0.1")
